@@ -245,6 +245,16 @@ class Parser:
     def expr(self, nostruct=False, lvl=0):
         if lvl == len(BINPREC):
             return self.cast(nostruct)
+        if lvl == 0:
+            l = self.expr(nostruct, 1)
+            while self.peek()[0] == "op" and self.peek()[1] == "||":
+                self.next(); l = ("bin", "||", l, self.expr(nostruct, 1))
+            if self.peek()[0] == "op" and self.peek()[1] in ("..", "..="):
+                incl = self.next()[1] == "..="
+                stop = self.peek()[1] in (")", "]", "}", ",", ";")
+                r = None if stop else self.expr(nostruct, 1)
+                return ("rangei" if incl else "range", l, r)
+            return l
         l = self.expr(nostruct, lvl + 1)
         while self.peek()[0] == "op" and self.peek()[1] in BINPREC[lvl]:
             op = self.next()[1]
@@ -340,7 +350,27 @@ class Parser:
             if self.opt("else"):
                 el = self.primary(nostruct) if self.at("if") else self.block()
             return ("if", c, t, el)
-        if v in ("for", "while", "loop", "match", "move", "|", "||"):
+        if v == "for":
+            self.next()
+            if self.at("("):
+                self.next(); names = []
+                while not self.at(")"):
+                    self.opt("&"); self.opt("mut"); names.append(self.next()[1]); self.opt(",")
+                self.eat(")"); pat = tuple(names)
+            else:
+                self.opt("&"); self.opt("mut"); pat = self.next()[1]
+            self.eat("in")
+            it = self.expr(nostruct=True)
+            body = self.block()
+            return ("for", pat, it, body)
+        if v == "|":
+            # closure with simple identifier parameters: |c| expr
+            self.next(); ps = []
+            while not self.at("|"):
+                self.opt("&"); ps.append(self.next()[1]); self.opt(",")
+            self.eat("|")
+            return ("closure", ps, self.expr())
+        if v in ("while", "loop", "match", "move", "||"):
             die("unsupported construct %r (loops, matches and closures are modelled by hand)" % v)
         if k == "id":
             segs = [self.next()[1]]
